@@ -311,10 +311,22 @@ class InvariantMonitor(Monitor):
         limit = self.runahead_limit_model([q for _, q in items], items)
         self.n_checks += 1
         if limit is not None and p > limit:
+            # known-finding predicate: cylc keeps a limit that has reached the
+            # stop point even when a future-triggered child later moves the
+            # earliest pool point back
+            prev_base = pool._prev_runahead_base_point
+            stuck = (
+                pool.stop_point is not None
+                and str(pool.runahead_limit_point) == str(pool.stop_point)
+                and prev_base is not None
+                and min(q for _, q in items) < self.prog.ppoint(str(prev_base))
+            )
             self.v('C04', 'released_beyond_runahead_limit', {
                 'task': itask.identity, 'limit_model': self.prog.pstr(limit),
                 'limit_cylc': str(pool.runahead_limit_point),
-                'pool': sorted(self.prog.iid(*i) for i in items)})
+                'cylc_base_point': str(prev_base),
+                'pool': sorted(self.prog.iid(*i) for i in items),
+                'predicates': ['limit_stuck_at_stop_point'] if stuck else []})
         if limit is not None and p == limit:
             self.res.sim.probe('runahead_limit_binding')
 
